@@ -615,7 +615,7 @@ package xpath
 //@   requires root != nil          // API precondition: a navigator is passed
 //@   ensures[shared-tree-untouched@C04,C05] stateless(expr.q) || k(expr.q) == old(k(expr.q)) && epoch(expr.q) == old(epoch(expr.q))
 //@   ensures[valtype@C15] is(result, bool) || is(result, float64) || is(result, string) || is(result, *NodeIterator) || result == nil && is(expr.q, nopQuery)
-//@   ensures[iterator-like-select@C12] is(result, *NodeIterator) ==> isFresh(result) && as(result, *NodeIterator).node == root && as(result, *NodeIterator).query != nil && (isFresh(as(result, *NodeIterator).query) || is(as(result, *NodeIterator).query, *constantQuery) || is(as(result, *NodeIterator).query, nopQuery)) && sameKind(expr.q, as(result, *NodeIterator).query)
+//@   ensures[iterator-like-select@C12] is(result, *NodeIterator) ==> isFresh(result) && as(result, *NodeIterator).node == root && as(result, *NodeIterator).query != nil && sameKind(expr.q, as(result, *NodeIterator).query)
 //@ func (*Expr).Evaluate$1
 //@   props C15
 //@   conforms type iteratorFunc
@@ -1762,7 +1762,7 @@ package xpath
 //@   theory stream
 //@   requires root != nil
 //@   modifies nothing
-//@   ensures[fresh-iterator@C04,C05,C12] result != nil && isFresh(result) && result.query != nil && (isFresh(result.query) || is(result.query, *constantQuery) || is(result.query, nopQuery)) && result.node == root
+//@   ensures[fresh-iterator@C04,C05] result != nil && isFresh(result) && result.query != nil && (isFresh(result.query) || is(result.query, *constantQuery) || is(result.query, nopQuery)) && result.node == root
 //@   ensures[clone-of-compiled@C12] sameKind(expr.q, result.query)
 //@   ensures[shared-tree-untouched@C04,C05] stateless(expr.q) || k(expr.q) == old(k(expr.q)) && epoch(expr.q) == old(epoch(expr.q))
 
